@@ -20,21 +20,24 @@ META = {
         "the lambda; the rules as found are refuted by a dropped comprehension filter), verify_spec_exact "
         "(an error (description, path) iff an invariant of the owner at that path is false; raises only where "
         "an invariant raises), wrap_preserves_description, and side conditions over the tables re-translated "
-        "from the source on every run (comparison map, no-parentheses tuples, rule order). The transpiler "
-        "model is tied to python/transpilation.py structurally: its target AST equals Python's own parse of "
+        "from the source on every run (comparison map, no-parentheses tuples, rule order), transpile_sound "
+        "(the written Python expression has, in the SDK environment, the renamed value / the same exception as the "
+        "invariant). The transpiler model is tied to python/transpilation.py structurally: its target AST equals Python's own parse of "
         "the real output and its token list equals the real tokens. The property statement itself is run on "
         "the real generated SDK against eval of the source lambdas."
     ),
     "level_note": (
-        "Partial: the semantic theorem for the transpiler (transpile_sound) is not proved in Coq; the "
-        "text generator _generate_verification.py and the path rendering are only corresponded. Trusted: "
+        "transpile_sound is proved for all expressions (values and exceptions, up to an injective renaming of "
+        "identifiers; side conditions: naming injective, loop variables capture neither `that`, the modules, "
+        "functions nor `range`/`len`). Partial: the text generator _generate_verification.py and the path "
+        "rendering are only corresponded; members of objects and enumerations are renamed by one function. Trusted: "
         "Python's ast/tokenize, the hand-written models beyond the sampled inputs."
     ),
     "technique": "Coq proof (structural induction; simulation of the walk) + translated tables + in-Coq "
                  "correspondence + direct oracle on the generated SDK",
 }
 GEN = ["GenPyTranspile", "GenWrap"]
-MODEL = ["Model/AstRules", "Model/PyTranspile", "Model/VerifySpec", "Gen/GenPyTranspile"]
+MODEL = ["Model/AstRules", "Model/PyTranspile", "Model/PyTranspileRename", "Model/VerifySpec", "Gen/GenPyTranspile"]
 TRUSTED = [
     "Model/AstRules.v, Model/PyTranspile.v, Model/VerifySpec.v are hand-written models (correspondence-checked "
     "against parse._rules.ast_node_to_our_node, _InvariantTranspiler.transform and the generated verify)",
@@ -216,6 +219,44 @@ def filter_probe() -> dict:
     return {"mm": mmg.dumps(mm), "instances": insts, "pattern_cases": {}, "fn_cases": {}, "spec_cases": 0}
 
 
+def that_probe() -> dict:
+    """A quantifier whose variable is called ``that``: in the generated code it would capture the
+    instance under verification (the side condition [var_ok] of transpile_sound)."""
+    doc = mmg.Doc("Provide a probe for the capture of the instance by a loop variable.")
+    cls = mmg.Class(
+        "Probe", properties=[mmg.Property("numbers", mmg.TList(mmg.TPrim("int")), mmg.Doc("Hold the numbers.")),
+                             mmg.Property("bound", mmg.TPrim("int"), mmg.Doc("Hold the bound."))],
+        doc=mmg.Doc("Represent a probe."))
+    body = mmg.All(mmg.ForEach("that", mmg.Member(mmg.Name("self"), "numbers")),
+                   mmg.Cmp(">", mmg.Member(mmg.Name("self"), "bound"), mmg.Name("that")))
+    cls.invariants.append(mmg.Invariant("Probe-2: the bound shall exceed the numbers", body, form="c08:that"))
+    mm = mmg.MetaModel(doc, "dummy", "https://example.com/mm", classes=[cls], decl_order=["Probe"])
+    insts = [{"cls": "Probe", "oid": k + 1, "fields": {"numbers": ns, "bound": b}}
+             for k, (ns, b) in enumerate([([1, 2], 5), ([7], 5), ([], 0)])]
+    return {"mm": mmg.dumps(mm), "instances": insts, "pattern_cases": {}, "fn_cases": {}, "spec_cases": 0}
+
+
+def module_probe() -> dict:
+    """A quantifier whose variable is called ``aas_types`` while its body mentions an enumeration:
+    in the generated code the variable would capture the module ``aas_types``."""
+    doc = mmg.Doc("Provide a probe for the capture of a module by a loop variable.")
+    en = mmg.Enumeration("Color", [mmg.EnumLiteral("Red", "Red"), mmg.EnumLiteral("Blue", "Blue")],
+                         mmg.Doc("Enumerate the colors."))
+    cls = mmg.Class(
+        "Probe", properties=[mmg.Property("numbers", mmg.TList(mmg.TPrim("int")), mmg.Doc("Hold the numbers.")),
+                             mmg.Property("kind", mmg.TOur("Color"), mmg.Doc("Hold the kind."))],
+        doc=mmg.Doc("Represent a probe."))
+    body = mmg.All(mmg.ForEach("aas_types", mmg.Member(mmg.Name("self"), "numbers")),
+                   mmg.Or((mmg.Cmp("==", mmg.Member(mmg.Name("self"), "kind"), mmg.Member(mmg.Name("Color"), "Red")),
+                           mmg.Cmp(">", mmg.Name("aas_types"), mmg.Const(0)))))
+    cls.invariants.append(mmg.Invariant("Probe-3: the kind shall be red or the numbers positive", body, form="c08:module"))
+    mm = mmg.MetaModel(doc, "dummy", "https://example.com/mm", enumerations=[en], classes=[cls],
+                       decl_order=["Color", "Probe"])
+    insts = [{"cls": "Probe", "oid": k + 1, "fields": {"numbers": ns, "kind": {"enum": "Color", "lit": lit}}}
+             for k, (ns, lit) in enumerate([([1, 2], "Blue"), ([0], "Blue"), ([0], "Red"), ([], "Blue")])]
+    return {"mm": mmg.dumps(mm), "instances": insts, "pattern_cases": {}, "fn_cases": {}, "spec_cases": 0}
+
+
 def same_errors(impl, exp) -> bool:
     if "raise" in exp:
         return "raise" in impl and impl["raise"] in exp["raise"]
@@ -233,8 +274,9 @@ def streams(ctx: lib.Ctx) -> None:
     n_inst = ctx.n(50, 200)
 
     # ---------------------------------------------------------------- direct oracle
-    jobs = [filter_probe()]
-    metas = [("filter_probe", {}, {})]
+    jobs = [filter_probe(), that_probe(), module_probe()]
+    metas = [("filter_probe", {}, {}), ("that_probe", {}, {}), ("module_probe", {}, {})]
+    n_probes = len(jobs)
     for k in range(n_models):
         base = "small" if (k % 3 or not ctx.thorough) else "medium"
         mm, hist = vg.make_metamodel(rng, base)
@@ -259,8 +301,8 @@ def streams(ctx: lib.Ctx) -> None:
     spec_models, spec_cases, spec_inputs = [], [], []
     for (name, hist, ih), job, res in zip(metas, jobs, results):
         forms.update(hist)
-        if res["status"] == "rejected" and name == "filter_probe":
-            shapes["probe_rejected_by_front_end"] += 1     # the repaired rules refuse the filter
+        if res["status"] == "rejected" and name in ("filter_probe", "that_probe", "module_probe"):
+            shapes["probe_rejected_by_repaired_code"] += 1     # the repaired code refuses the construct
             continue
         if res["status"] != "ok":
             if res["status"] in ("crash", "import_error"):
@@ -284,7 +326,9 @@ def streams(ctx: lib.Ctx) -> None:
                 n_mismatch += 1
                 if n_mismatch <= 5:
                     mmj = mmj or mmg.loads(job["mm"])
-                    key = "comprehension-filter-dropped" if name == "filter_probe" else (
+                    key = {"filter_probe": "comprehension-filter-dropped",
+                           "that_probe": "loop-variable-captures-that",
+                           "module_probe": "loop-variable-captures-module"}.get(name) or (
                         f"verify-differs-{lib.stable_key(job['mm'], idx)}")
                     ctx.impl_failure(
                         key, "verification.verify(instance) differs from eval of the invariant lambdas",
@@ -377,7 +421,7 @@ def streams(ctx: lib.Ctx) -> None:
 
     lap('rules')
     # ---------------------------------------------------------------- transpiler (a)
-    texts = [mmg.render_source(mmg.loads(j["mm"])) for j in jobs[1:1 + ctx.n(6, 40)]]
+    texts = [mmg.render_source(mmg.loads(j["mm"])) for j in jobs[n_probes:n_probes + ctx.n(6, 40)]]
     tres = lib.impl_call("pyverify_corr.py", {"mode": "transpile", "models": texts}, timeout=2400)
     inputs, cases, gs = [], [], []
     dist = collections.Counter()
